@@ -11,11 +11,12 @@ RULE = ("ELF64/x86-64 and ELF32/i386 objects written by the harness (1-4 executa
         "same number of records as instruction lines, same order, same address, mnemonic equal to the line's mnemonic token "
         "(the first token that is not a prefix, alone or with its prefixes; the reading 'first prefix token = mnemonic' is the open "
         "finding prefix_token_read_as_mnemonic); one matcher object reused on a second listing builds the same stream as a fresh one; byte-continuation lines, labels, headers contribute nothing; no "
-        "exception. Plus every listing under tests/assembly. Non-trivial/distinct = distinct line shapes (prefixes + "
+        "exception. Plus every listing under tests/assembly, and large listings (4 KiB - 2 MiB) whose header length puts every power-of-two byte "
+        "offset in turn at a chosen column of an instruction line; every listing is parsed under a randomly chosen logger level (warning/info/debug). Non-trivial/distinct = distinct line shapes (prefixes + "
         "mnemonic + operand-shape signature) that went through both readers.")
 FLOOR = {"quick": 300, "thorough": 1500}
 ANCHOR_HINTS = ["asm_manual_parser_w_regex", "gnu_objdump_parser_manual", "observers", "consumer"]
-REQUIRED_EVENTS = ["listings_compared"]
+REQUIRED_EVENTS = ["listings_compared", "block_boundary_listings"]
 SHARDS = {"quick": 16, "thorough": 64}
 
 
@@ -48,7 +49,15 @@ def failing_run(ctx, ws):
     ctx.event("preceding_failed_runs" if r[0] == "exc" else "preceding_runs_did_not_fail")
 
 
-def judge_listing(ctx, ws, text, origin, elf_bytes=None, force_reuse=False):
+def judge_listing(ctx, ws, text, origin, elf_bytes=None, force_reuse=False, level=None):
+    # ambient state: the level --info / --debug give jasm's logger never changes what is parsed
+    level = level or ctx.rng.choice(["warning"] * 6 + ["info"] + ["debug"] * 3)
+    ctx.event("listings_judged_with_log_level_" + level)
+    with real.log_level(level):
+        return _judge_listing(ctx, ws, text, origin + ("" if level == "warning" else f" [logger at {level}]"), elf_bytes, force_reuse)
+
+
+def _judge_listing(ctx, ws, text, origin, elf_bytes=None, force_reuse=False):
     if ctx.rng.random() < 0.25:
         failing_run(ctx, ws)
     p = ws.write("in.s", text)
@@ -112,8 +121,38 @@ def judge_listing(ctx, ws, text, origin, elf_bytes=None, force_reuse=False):
     ctx.sample("objdump-listing", {"origin": origin, "first_lines": text[:500], "records": len(dec), "first_records": [list(map(str, d)) for d in dec[:3]]})
 
 
+BLOCKS = [2 ** 20, 2 ** 16, 2 ** 17, 2 ** 18, 2 ** 19, 2 ** 21, 2 ** 15, 2 ** 14, 2 ** 13, 2 ** 12, 10 ** 6, 10 ** 5]
+
+
+def block_boundary_stratum(ctx, ws, n):
+    """Large listings (up to 2 MiB) of fixed-width instruction lines whose header length is chosen so that a byte offset that
+    block-wise reading would use (every power of two from 4 KiB to 2 MiB, 10^5, 10^6 - visited in turn) falls at a chosen column
+    of an instruction line: inside the leading blanks, the address, the byte column or the mnemonic."""
+    rng = ctx.rng
+    for i in range(n):
+        B = BLOCKS[(ctx.shard + i * ctx.nshards) % len(BLOCKS)]
+        col = rng.choice([0, 1, 2, 3, 4, 5, 6, 7, 8, 9, 12, 20, 31, 33])
+        body = rng.choice([("90", "nop"), ("c3", "ret"), ("cc", "int3"), ("50", "push   %rax")])
+        line = lambda a: f"  {a:x}:\t{body[0]:<21}\t{body[1]}\n"      # noqa: E731
+        lw = len(line(0x401000))
+        head0 = "\nbig.bin:     file format elf64-x86-64\n\n\nDisassembly of section .text:\n\n0000000000401000 <"
+        # header length H with (B - H) % lw == col
+        k = 1
+        while (B - (len(head0) + k + 3)) % lw != col or (len(head0) + k + 3) > B:
+            k += 1
+            if k > 3 * lw:
+                break
+        head = head0 + "f" * k + ">:\n"
+        nlines = (B - len(head)) // lw + rng.randint(40, 400)
+        text = head + "".join(line(0x401000 + j) for j in range(nlines))
+        ctx.event("block_boundary_listings")
+        ctx.event("block_boundary_bytes", len(text))
+        _judge_listing(ctx, ws, text, f"block-boundary/{B}/col{col}")
+
+
 def run_shard(ctx):
     ws = real.Workspace()
+    block_boundary_stratum(ctx, ws, ctx.share(24, 240))
     if ctx.shard == 0:
         for f in objd.fixtures():
             with open(f, encoding="utf-8", errors="replace") as fh:
